@@ -13,7 +13,7 @@ from pat import m, Bind, ANY, Call, Bin, Const, Param, SelfField, core, self_pat
 
 META = {
     "level": "other",
-    "technique": "static analysis: per-path effect analysis (Err paths write-free), co-mutation of invariant-tied fields, guard dominance at unchecked-mutator call sites (MIR, rustc_private driver)",
+    "technique": "static analysis: per-path effect analysis (Err paths write-free), co-mutation of invariant-tied fields, guard dominance at unchecked-mutator call sites, no-op inputs mutation-free, must-precede (flush before conversion reads), who-is-called in extend (MIR, rustc_private driver; bodies normalised by helper inlining and combinator expansion)",
     "explanation": "For the builder entry points the CFG is searched for any store through the builder or &mut call on it from which an "
                    "Err return is reachable; fields tied by a representation invariant must be stored together on every path through a "
                    "store of one of them; calls of the unsafe unchecked mutators from safe functions must be dominated by comparisons that "
